@@ -32,10 +32,13 @@ struct Form {
     top_only: bool,
     /// the assignment runs inside a task: operand pairs that end in a runtime error are left out
     no_err: bool,
+    /// `assignat` request: (statements in the Names grammar, id:kind:captured list) — the Names model
+    /// decides which declaration the target means
+    at: Option<(&'static str, &'static str)>,
 }
 
 fn forms() -> Vec<Form> {
-    let f = |tag, target, captured, decls, body, top_only| Form { tag, target, captured, decls, body, top_only, no_err: false };
+    let f = |tag, target, captured, decls, body, top_only| Form { tag, target, captured, decls, body, top_only, no_err: false, at: None };
     vec![
         f("let", "let", false, "", "let x = {OLD}\nx {OP} {RHS}\nprintln(x)\n", false),
         f("var", "var", false, "", "var x = {OLD}\nx {OP} {RHS}\nprintln(x)\n", false),
@@ -172,8 +175,88 @@ fn capture_only_forms() -> Vec<Form> {
                     body: Box::leak(body.into_boxed_str()),
                     top_only: true,
                     no_err: runner == "task",
+                    at: None,
                 });
             }
+        }
+    }
+    out
+}
+
+/// A declaration of the SAME NAME with the OPPOSITE mutability (or a binder of that name) inside a
+/// scope-opening construct, and the assignment either after the construct has closed (the outer
+/// declaration decides) or inside it (the inner one decides); also with the whole thing inside a
+/// lambda that captures the outer variable.  The innermost VISIBLE declaration decides the verdict.
+fn shadow_forms() -> Vec<Form> {
+    let leak = |s: String| -> &'static str { Box::leak(s.into_boxed_str()) };
+    // (tag, open, close, enc open, enc close)
+    let scopes: Vec<(&str, &str, &str, &str, &str)> = vec![
+        ("while", "var wq = true\nwhile wq {\n  wq = false\n", "}\n", "{", "}"),
+        ("for", "for qf in [1] {\n", "}\n", "fqf.9{", "}"),
+        ("if", "if true {\n", "}\n", "{", "}"),
+        ("else", "if false {\n  let uu = 0\n} else {\n", "}\n", "I{luu.7;}{", "}"),
+        ("match-arm", "match 1 {\n  _ -> {\n", "  }\n}\n", "M<n{", "}>"),
+        ("block", "{\n", "}\n", "{", "}"),
+        ("lambda", "let gq = () -> {\n", "}\ngq()\n", "pzq.8{", "}"),
+    ];
+    let binders: Vec<(&str, &str, &str, &'static str)> = vec![
+        ("for-binder", "for x in [{OLD}] {\n  let uu = 0\n}\n", "fx.2{luu.7;}", "for"),
+        ("match-binder", "match {OLD} {\n  x -> {\n    let uu = 0\n  }\n}\n", "M<ax.2{luu.7;}>", "match"),
+        ("lambda-parameter", "let gq = (x: {TY}) -> {\n  let uu = 0\n}\ngq({OLD})\n", "px.2{luu.7;}", "lamparam"),
+    ];
+    let mut out = vec![];
+    for (outer, inner) in [("let", "var"), ("var", "let")] {
+        for (stag, open, close, eo, ec) in &scopes {
+            // after the construct: the outer declaration is the innermost visible one
+            out.push(Form {
+                tag: leak(format!("shadow-after-{stag}:outer-{outer}")),
+                target: if outer == "let" { "let" } else { "var" },
+                captured: false,
+                decls: "",
+                body: leak(format!("{outer} x = {{OLD}}\n{open}  {inner} x = {{OLD}}\n{close}x {{OP}} {{RHS}}\nprintln(x)\n")),
+                top_only: false,
+                no_err: false,
+                at: Some((leak(format!("lx.1;{eo}lx.2;{ec}ux;")), leak(format!("1:{outer}:0,2:{inner}:0")))),
+            });
+            // inside the construct, after the inner declaration: the inner one decides
+            out.push(Form {
+                tag: leak(format!("shadow-inside-{stag}:inner-{inner}")),
+                target: if inner == "let" { "let" } else { "var" },
+                captured: false,
+                decls: "",
+                body: leak(format!("{outer} x = {{OLD}}\n{open}  {inner} x = {{OLD}}\n  x {{OP}} {{RHS}}\n  println(x)\n{close}")),
+                top_only: false,
+                no_err: false,
+                at: Some((leak(format!("lx.1;{eo}lx.2;ux;{ec}")), leak(format!("1:{outer}:0,2:{inner}:0")))),
+            });
+            // the same inside a lambda that captures the outer variable
+            let ind = |t: &str| t.lines().map(|l| format!("  {l}\n")).collect::<String>();
+            out.push(Form {
+                tag: leak(format!("shadow-captured-after-{stag}:outer-{outer}")),
+                target: if outer == "let" { "let" } else { "var" },
+                captured: true,
+                decls: "",
+                body: leak(format!(
+                    "{outer} x = {{OLD}}\nlet fc = () -> {{\n{}    {inner} x = {{OLD}}\n{}  x {{OP}} {{RHS}}\n}}\nfc()\nprintln(x)\n",
+                    ind(open),
+                    ind(close)
+                )),
+                top_only: true,
+                no_err: false,
+                at: Some((leak(format!("lx.1;pzz.6{{{eo}lx.2;{ec}ux;}}")), leak(format!("1:{outer}:1,2:{inner}:0")))),
+            });
+        }
+        for (btag, code, enc, kind) in &binders {
+            out.push(Form {
+                tag: leak(format!("shadow-after-{btag}:outer-{outer}")),
+                target: if outer == "let" { "let" } else { "var" },
+                captured: false,
+                decls: "",
+                body: leak(format!("{outer} x = {{OLD}}\n{code}x {{OP}} {{RHS}}\nprintln(x)\n")),
+                top_only: false,
+                no_err: false,
+                at: Some((leak(format!("lx.1;{enc}ux;")), leak(format!("1:{outer}:0,2:{kind}:0")))),
+            });
         }
     }
     out
@@ -267,13 +350,14 @@ fn main() {
     let quick = ctx.quick();
     let mut all_forms = forms();
     all_forms.extend(capture_only_forms());
+    all_forms.extend(shadow_forms());
     for form in all_forms {
         for (opname, opsym) in OPS {
             for cx in [Ctxt::Top, Ctxt::Fn, Ctxt::Lam] {
                 if form.top_only && cx != Ctxt::Top {
                     continue;
                 }
-                let light = quick && form.tag.starts_with("only-in-");
+                let light = quick && (form.tag.starts_with("only-in-") || form.tag.starts_with("shadow-"));
                 for (pi, &(a, b)) in int_pairs.iter().enumerate() {
                     if light && pi != 0 && pi != 3 {
                         continue; // quick tier: (10, 3) and (5, 0) for the capture-only forms
@@ -282,13 +366,19 @@ fn main() {
                         continue;
                     }
                     let src = build(&form, opsym, &a.to_string(), &b.to_string(), "int", cx);
-                    let req = format!("assign {} {} {} {} {} #{}", form.target, form.captured as u8, opname, a, b, form.tag);
+                    let req = match form.at {
+                        Some((enc, kinds)) => format!("assignat {enc} {kinds} {opname} {a} {b} #{}", form.tag),
+                        None => format!("assign {} {} {} {} {} #{}", form.target, form.captured as u8, opname, a, b, form.tag),
+                    };
                     jobs.push(Job { form: form.clone(), opname, src, req, cx, int: Some((a, b)), float: None });
                 }
                 if opname != "mod" {
                     for &(a, b) in float_pairs.iter().take(if light { 1 } else { 2 }) {
                         let src = build(&form, opsym, &format!("{a:?}"), &format!("{b:?}"), "float", cx);
-                        let req = format!("assign {} {} {} - - #{}:float", form.target, form.captured as u8, opname, form.tag);
+                        let req = match form.at {
+                            Some((enc, kinds)) => format!("assignat {enc} {kinds} {opname} - - #{}:float", form.tag),
+                            None => format!("assign {} {} {} - - #{}:float", form.target, form.captured as u8, opname, form.tag),
+                        };
                         jobs.push(Job { form: form.clone(), opname, src, req, cx, int: None, float: Some((a, b)) });
                     }
                 }
